@@ -1,6 +1,7 @@
 import Driver.Util
 import NutsModel.C14.Notifier
 import NutsModel.C14.Options
+import NutsModel.C14.Api
 import NutsModel.Facts.C14
 open Lean Nuts.Drv Nuts.C14 Nuts
 
@@ -168,6 +169,58 @@ def stepNP (j : Json) : String :=
   let seen := if calls == 0 then "-" else s!"{retries}"
   s!"np|calls={calls}|seen={seen}|failed={npFailedEvents.length}:<nil>|run=<nil>:0|fin=<nil>"
 
+/-! ### deepening round: the operator's view (NutsModel.C14.Api) -/
+
+def parseErrLabel : String → JErr
+  | "incomplete" => .incomplete | "generic" => .generic | "ctx" => .ctx | "fatal" => .fatal | "storage" => .storage | _ => .none
+
+/-- a state that holds exactly the listed jobs (the harness read them from the shelves) -/
+def stateOfJobs (jobs : List Json) : St :=
+  jobs.foldl (fun σ j =>
+    setJob σ (jNat j "s") (jNat j "r")
+      (some { type := if jStr j "type" == "tx" then .tx else .payload, retries := jNat j "retries", err := parseErrLabel (jStr j "err") })) {}
+
+def apiCfg (nSubs nRefs : Nat) : Cfg :=
+  { nSubs := nSubs, nRefs := nRefs, sel := fun _ _ _ => true, phash := fun _ => 0, root := fun _ => false, beh := fun _ _ _ => .done,
+    maxRetries := Nuts.Facts.C14.maxRetries, failedThreshold := Nuts.Facts.C14.retriesFailedThreshold,
+    skipPresent := true, writeBackSkipsGone := true, storageFaultEndsLoop := false }
+
+def showJobs (c : Cfg) (σ : St) : String := Id.run do
+  let mut out : Array String := #[]
+  for s in List.range c.nSubs do
+    for r in List.range c.nRefs do
+      match σ.shelf s r with
+      | some j => out := out.push s!"{s}.{r}:{j.retries}:{showErr j.err}"
+      | none => pure ()
+  return String.intercalate "," out.toList
+
+def stepClean (j : Json) : String :=
+  let names := (jStrs j "names").toArray
+  let nm : Nat → String := fun s => match names[s]? with | some n => n | none => ""
+  let jobs := jArr j "jobs"
+  let nRefs := jobs.foldl (fun m x => max m (jNat x "r" + 1)) 0
+  let c := apiCfg names.size nRefs
+  let texts := jObj j "errText"
+  let prefix_ := jStr j "prefix"
+  -- strings.HasPrefix(event.Error, errorPrefix) on the text the harness's receivers produce for each label
+  let pre : JErr → Bool := fun e => prefix_.isPrefixOf (jStr texts (showErr e))
+  let (σ', ok) := cleanup c nm (jStr j "target") pre (fun _ => false) none (jNats j "order") (stateOfJobs jobs)
+  s!"clean|{ok}|{showJobs c σ'}"
+
+def stepList (j : Json) : String :=
+  let names := (jStrs j "names").toArray
+  let nm : Nat → String := fun s => match names[s]? with | some n => n | none => ""
+  let jobs := jArr j "jobs"
+  let nRefs := jobs.foldl (fun m x => max m (jNat x "r" + 1)) 0
+  let c := apiCfg names.size nRefs
+  match listEvents c nm (stateOfJobs jobs) (fun _ => false) (jNats j "order") with
+  | .ok l =>
+    let rows := l.map fun p =>
+      p.1 ++ "=[" ++ String.intercalate "," (p.2.map fun e => s!"{e.ref}:{showType e.type}:{e.retries}:{showErr e.err}") ++ "]"
+    "list|" ++ String.intercalate ";" rows
+  | .err e => "list|err:" ++ e
+  | .panic p => "list|panic:" ++ p
+
 def privateSub : Nat := 1
 
 def step (d : DSt) (j : Json) : DSt × List String :=
@@ -195,6 +248,8 @@ def step (d : DSt) (j : Json) : DSt × List String :=
   | "o14new" => (d, [stepNew j])
   | "o14retry" => (d, [stepRetry j])
   | "o14np" => (d, [stepNP j])
+  | "o14clean" => (d, [stepClean j])
+  | "o14list" => (d, [stepList j])
   | op =>
     match d.cfg with
     | none => (d, ["bad-op:no-config"])
